@@ -47,14 +47,31 @@ def _tuplify(e):
     return e
 
 
+def _tobool_programs():
+    """A value converted to boolean type INSIDE the program (legal for any value in dead code / with checking off) and
+    then used as a factor, a selector or a logical operand."""
+    I = lambda i: ("in", i)
+    tb = ("op", "tobool", I(0))
+    return [
+        {"expr": ("op", "mul", tb, I(1)), "kinds": ["S", "S"]}, {"expr": ("op", "mul", I(1), tb), "kinds": ["S", "S"]},
+        {"expr": ("op", "mul", tb, I(1)), "kinds": ["S", "K"]}, {"expr": ("op", "mul", tb, I(1)), "kinds": ["S", "B"]},
+        {"expr": ("op", "if_then_else", tb, I(1), I(2)), "kinds": ["S", "S", "S"]},
+        {"expr": ("op", "if_then_else", tb, I(1), I(2)), "kinds": ["S", "S", "K"]},
+        {"expr": ("op", "and", tb, I(1)), "kinds": ["S", "B"]}, {"expr": ("op", "xor", I(1), tb), "kinds": ["S", "B"]},
+        {"expr": ("op", "add", tb, I(1)), "kinds": ["S", "S"]}, {"expr": ("op", "eq", tb, I(1)), "kinds": ["S", "B"]},
+        {"expr": ("op", "invert", tb), "kinds": ["S"]}, {"expr": ("op", "neg", tb), "kinds": ["S"]},
+    ]
+
+
 def depth2_family(ctx):
     """Depth-2 compositions; the quick tier uses a sub-alphabet, the thorough tier all of it."""
     if ctx.thorough:
-        return E.depth2_programs()
+        return E.depth2_programs() + _tobool_programs()
     # quick: every operator occurs as the inner operation (its result - also its error-path result -
     # is consumed by a second call) and as the outer one, but not every pair
     progs = E.depth2_programs(None, ["mul", "eq", "lt", "truediv", "xor"]) + \
         E.depth2_programs(["add", "mul", "floordiv", "lt", "eq", "and", "rshift"], ["sub", "mod", "le", "ne", "lshift", "pow"])
+    progs = progs + _tobool_programs()
     seen, out = set(), []
     for pr in progs:
         k = (pr["expr"], tuple(pr["kinds"]))
